@@ -7,6 +7,7 @@ MODULES = {
     "C06": ["contracts.c06_c07_transforms"],
     "C07": ["contracts.c06_c07_transforms"],
     "C08": ["contracts.c08_linalg"],
+    "C09": ["contracts.c09_histories"],
     "C11": ["contracts.c11_c13_flow"],
     "C12": ["contracts.c12_derivatives"],
     "C13": ["contracts.c12_derivatives", "contracts.c11_c13_flow"],
